@@ -489,8 +489,14 @@ def _mentions_is_finished(prog, f, operand, depth=6):
                     elif f.locals[la]['s'] == 'bool':
                         work.append(la)
             elif kind == 'assign':
-                for p in core.rvalue_places(payload):
+                places = core.rvalue_places(payload)
+                for p in places:
                     work.append(p[0])
+                if not places and depth > 1:
+                    # a constant (`return false` of an inlined helper): the value is decided by what decides that assignment
+                    for sw in core.deciding_switches(f, bb):
+                        if _mentions_is_finished(prog, f, f.blocks[sw]['t']['o'], depth - 2):
+                            return True
     return False
 
 
